@@ -35,6 +35,10 @@ pub enum Op {
     Trading(bool),
     ResetVol,
     Reload(String),
+    /// Stamp jump: the book goes through its snapshot with `k` added to the queue-stamp counter and to
+    /// the stamp of every stored key (the state `k` queue insertions that have since left the book would
+    /// have produced). Nothing observable may change.
+    Jump(u64),
 }
 
 pub fn side_of(is_bid: bool) -> Side {
@@ -75,6 +79,7 @@ impl Op {
             Op::Trading(b) => format!("trading {}", if *b { 1 } else { 0 }),
             Op::ResetVol => "resetvol".to_string(),
             Op::Reload(m) => format!("reload {}", m),
+            Op::Jump(k) => format!("jump {}", k),
         }
     }
 
@@ -115,6 +120,7 @@ impl Op {
             ["trading", b] => Some(Op::Trading(*b == "1")),
             ["resetvol"] => Some(Op::ResetVol),
             ["reload", m] => Some(Op::Reload(m.to_string())),
+            ["jump", k] => Some(Op::Jump(k.parse().ok()?)),
             _ => None,
         }
     }
